@@ -157,7 +157,7 @@ PROPS["C11"] = dict(
                "(iii) on every well-formed table the reference builder can produce within the bound, every present name is found at the first index bearing it and every absent name (including bucket- and bloom-colliding ones) gives None.",
     level_note=_HASH_NOTE,
     groups=[
-        K("core", ["c11::"], functions=["hash::gnu_hash", "GnuHashTable::{new,find}", "ParsingTable<u32/u64/Symbol>::get", "StringTable::get_raw"], bounds="see level_note; quick: ELF32 LE soundness 32-byte table; completeness nbucket=1,nbloom=1,NS=2", timeout_s=900),
+        K("core", ["c11::"], functions=["hash::gnu_hash", "GnuHashTable::{new,find}", "ParsingTable<u32/u64/Symbol>::get", "StringTable::get_raw"], bounds="see level_note; quick: ELF32 LE soundness 32-byte table; lean completeness/absent harnesses: nbucket=1, nbloom=1, two hashed symbols with symbolic 2-byte names (full non-NUL alphabet), shift 0..31 symbolic", timeout_s=1200, jobs=8),
         K("core", ["c11t::"], tier="thorough", functions=["same"], bounds="both classes, BE, nbucket<=3, nbloom<=2, NS<=3, names<=16 for the hash function", timeout_s=3000),
     ],
     assumptions=["hashed symbols are sorted by bucket (format requirement) — assumed on the symbolic names", "on corrupted tables find may return Err; soundness constrains only Ok(Some(_))"],
@@ -168,7 +168,7 @@ PROPS["C12"] = dict(
     level_text="As C11 for the SysV .hash section: hash function equals the gABI reference (incl. the top-nibble fold, reached at >= 7 bytes), lookup is sound on arbitrary bytes (cyclic chains, out-of-range indexes give Err/None, never a wrong symbol or panic) and complete on builder-produced tables.",
     level_note=_HASH_NOTE,
     groups=[
-        K("core", ["c12::"], functions=["hash::sysv_hash", "SysVHashTable::{new,find}", "ParsingTable<u32/Symbol>::get", "StringTable::get_raw"], bounds="see level_note; quick: ELF32 LE soundness 28-byte table; completeness nbucket=1,NS=2", timeout_s=900),
+        K("core", ["c12::"], functions=["hash::sysv_hash", "SysVHashTable::{new,find}", "ParsingTable<u32/Symbol>::get", "StringTable::get_raw"], bounds="see level_note; quick: ELF32 LE soundness 28-byte table; lean completeness/absent harnesses: nbucket=2, two hashed symbols with symbolic 2-byte names, absent query of 1..2 bytes (prefix case included)", timeout_s=1200, jobs=8),
         K("core", ["c12t::"], tier="thorough", functions=["same"], bounds="both classes, nbucket<=3, NS<=3, names<=16 for the hash function", timeout_s=3000),
     ],
     assumptions=["on corrupted tables find may return Err; soundness constrains only Ok(Some(_))"],
@@ -197,7 +197,7 @@ PROPS["C13"] = dict(
     level_note="Bound: quick 1 needed file x <=2 aux and 1 definition x <=2 names, 3 versym entries, one layout each; thorough adds 2x2 models and more layouts. Strings are fixed distinct entries of a constant string table. Wiring through ElfBytes::symbol_version_table: see DESIGN. usize = 64 bit.",
     groups=[
         K("core", ["c13::"], functions=["SymbolVersionTable::{new,get_requirement,get_definition}", "VerNeedIterator/VerNeedAuxIterator/VerDefIterator/VerDefAuxIterator::next", "SymbolNamesIterator::next", "VersionIndex::{index,is_hidden}", "StringTable::get"],
-          bounds="model 1x2 (verneed), 1x2 (verdef); versym 3 entries; symbol index any usize; byte order symbolic", timeout_s=900),
+          bounds="models 1 file x 2 aux, 1 def x 2 names, 2 files x 1 aux in headers-first (non-contiguous) layout; all ids/flags/hashes/counts/versym entries symbolic; symbol index any usize; byte order fixed per harness", timeout_s=1500, jobs=4),
         M(["L9"], ["C13.", "L9."], bounds="wiring through ElfBytes::symbol_version_table: section tables of 1..3 entries, every header field symbolic, both classes: the table handed out is SymbolVersionTable::new over exactly "
           "[versym range, entsize 2], VerNeed/VerDef iterators with count = sh_info, offset 0, data = the section's range and strings = the range of shdr[sh_link]"),
         K("core", ["c13t::"], tier="thorough", functions=["same"], bounds="2 files x 2 aux, 2 defs x 2 names, interleaved / slack layouts", timeout_s=3000, cbmc_args=["--max-field-sensitivity-array-size", "160"]),
